@@ -62,7 +62,8 @@ OID_HTTPREQ = SQ + (3, 2, 1, 1, 0)
 OID_MEDIAN = SQ + (3, 2, 2, 1, 2, 5)
 OID_PEERNAME = SQ + (5, 1, 3, 2, 1)
 OID_PEERTBL = SQ + (5, 1, 3)
-OID_CLIENT = SQ + (5, 2, 2, 1, 1, 4, 127, 0, 0, 1)
+OID_CLIENT = SQ + (5, 2, 2, 1, 127, 0, 0, 1)
+OID_PEERCOL1 = SQ + (5, 1, 3, 2, 1)
 OID_CLIENTTBL = SQ + (5, 2, 2, 3)
 
 
@@ -146,13 +147,16 @@ def seeds_phase1(P):
     snmp('v1-get-3vars', snmp_msg(0, b'public', u.SNMP_GET, 0x3005, [OID_VERSION, OID_HTTPREQ, OID_MEDIAN]))
     snmp('v1-get-peername', snmp_msg(0, b'public', u.SNMP_GET, 0x3006, [OID_PEERNAME]))
     snmp('v1-getnext-client', snmp_msg(0, b'public', u.SNMP_GETNEXT, 0x3007, [OID_CLIENT]))
+    snmp('v2c-get-client', snmp_msg(1, b'public', u.SNMP_GET, 0x300E, [SQ + (5, 2, 2, 3, 127, 0, 0, 1)]))
+    snmp('v1-getnext-peer-indexed', snmp_msg(0, b'public', u.SNMP_GETNEXT, 0x300F, [OID_PEERCOL1]))
     snmp('v2c-getnext-clienttbl-2vars', snmp_msg(1, b'public', u.SNMP_GETNEXT, 0x3008, [OID_CLIENTTBL, OID_MEDIAN]))
     snmp('v1-get-wrong-community', snmp_msg(0, b'private', u.SNMP_GET, 0x3009, [OID_UPTIME]))
     snmp('v1-set-typed-values', snmp_msg(0, b'public', u.SNMP_SET, 0x300A, [
         (OID_ADMIN, u.ber_tlv(0x04, b'root')), (OID_HTTPREQ, u.ber_int(7)), (OID_UPTIME, u.ber_tlv(0x43, b'\x01\x02')),
         (OID_VERSION, u.ber_oid(SQ)), (OID_CLIENT, u.ber_tlv(0x40, b'\x7f\0\0\1'))]))
     snmp('v2c-getbulk', snmp_msg(1, b'public', u.SNMP_GETBULK, 0x300B, [OID_PEERTBL], errstat=0, errindex=5))
-    snmp('v1-get-valued-varbind', snmp_msg(0, b'public', u.SNMP_GET, 0x300C, [(OID_ADMIN, u.ber_tlv(0x04, b'abc')), (OID_UPTIME, u.ber_tlv(0x46, b'\x01'))]))
+    snmp('v1-get-valued-varbind', snmp_msg(0, b'public', u.SNMP_GET, 0x300C, [(OID_ADMIN, u.ber_tlv(0x04, b'abc')), (OID_UPTIME, u.ber_tlv(0x43, b'\x01'))]))
+    snmp('v2c-get-counter64-varbind', snmp_msg(1, b'public', u.SNMP_GET, 0x3010, [(OID_HTTPREQ, u.ber_tlv(0x46, b'\x01'))]))
     snmp('v1-response-pdu', snmp_msg(0, b'public', u.SNMP_RESPONSE, 0x300D, [(OID_UPTIME, u.ber_tlv(0x43, b'\x05'))]))
     return S
 
@@ -829,7 +833,8 @@ def run(ctx):
         want = {'icp:v2-query-miss': 'icp:reply:MISS', 'icp:v2-query-hit': 'icp:reply:HIT', 'icp:v3-query-miss': 'icp:reply:MISS',
                 'icp:v2-query-bad-url': 'icp:reply:ERR', 'htcp:tst-req-miss': 'htcp:reply:TST:resp1', 'htcp:tst-req-hit': 'htcp:reply:TST:resp0:detail',
                 'htcp:clr-req-f1': 'htcp:reply:CLR:resp2', 'snmp:v1-get-uptime': 'snmp:reply:err0', 'snmp:v2c-getnext-peertbl': 'snmp:reply:err0',
-                'snmp:v1-getnext-client': 'snmp:reply:err0', 'snmp:v1-get-wrong-community': 'snmp:silent',
+                'snmp:v1-getnext-client': 'snmp:reply:err0', 'snmp:v1-getnext-peer-indexed': 'snmp:reply:err0',
+                'snmp:v1-get-wrong-community': 'snmp:silent',
                 'icp-reply:v2-miss': 'icp-reply:origin-after-mutant', 'icp-reply:v2-hit': 'icp-reply:icpp-after-mutant',
                 'htcp-reply:tst-hit-detail': 'htcp-reply:htcpp-after-mutant', 'htcp-reply:tst-miss-empty-detail': 'htcp-reply:origin-after-mutant'}
         for k, v in want.items():
